@@ -159,10 +159,12 @@ fn main() {
     };
     for (i, a) in crit.iter().enumerate() {
         for (j, b) in crit.iter().enumerate() {
-            for (k, op) in BIN_OPS.iter().enumerate() {
-                // literal (small when it fits) and forced-big productions alternate
-                let (ha, hb) = (((i + k) % 2) as u64, ((j + k / 2) % 2) as u64);
-                cases.push(Case { kind: "bin", op: op.to_string(), a: a.clone(), b: b.clone(), src_a: produce(a, ha), src_b: produce(b, hb) });
+            for op in BIN_OPS.iter() {
+                // every combination of the two ways of holding each operand: literal (a machine word when
+                // it fits) and forced-big production
+                for (ha, hb) in [(0u64, 0u64), (0, 1), (1, 0), (1, 1)] {
+                    cases.push(Case { kind: "bin", op: op.to_string(), a: a.clone(), b: b.clone(), src_a: produce(a, ha), src_b: produce(b, hb) });
+                }
             }
         }
     }
